@@ -456,7 +456,7 @@ def check_property(prop, tier, configs=None, only=None, keep=False, write_eviden
 
 
 LEMMA_PROPS = {'C01': 'L1 (64-bit product from 32-bit partial products)', 'C05': 'L5 (Euclidean witness of shift-subtract dividers), L2, A1 (truncated rounded binary64 quotient)',
-               'C14': 'L3 (unsigned), L4 (signed) Granlund-Montgomery, L6 (high product from partial products)', 'C15': 'L3, L4 (lane-wise), L6'}
+               'C14': 'L3 (unsigned), L4 (signed) Granlund-Montgomery, L6 (high product from partial products)', 'C15': 'L3, L4 (lane-wise), L6, L7 (signed high product from the unsigned one)'}
 LEMMA_STATUS = {}
 
 
